@@ -362,7 +362,7 @@ def _dead(rng, kv):
     names = sorted(ops_tbl)
     rng.shuffle(names)
     for m in names:
-        ops.append({"m": m, "form": rng.choice(["canceled", "deadline"]), "a": ops_tbl[m](rng)})
+        ops.append({"m": m, "form": "deadline" if rng.random() < (0.1 if kv else 0.5) else "canceled", "a": ops_tbl[m](rng)})
     if kv:
         return {"kind": "kv", "seed": rng.randrange(1 << 16), "weights": [100, 50, 100], "ops": ops, "dead": True}
     return {"kind": "diff", "n": 1, "seed": rng.randrange(1 << 16), "ops": ops, "dead": True}
